@@ -107,6 +107,10 @@ func vC10Pattern(r *vRand, n, thr int) (string, int, int) {
 	}
 }
 
+var vC10BigSels = []cciptypes.ChainSelector{5009297550715157269, 11344663589394136015, 15971525489660198786, 4949039107694359620,
+	3734403246176062136, 4051577828743386545, 6433500567565415381, 16015286601757825753, 13264668187771770619,
+	1<<64 - 1, 1 << 63, 7}
+
 func vC10Root(ch cciptypes.ChainSelector, s, e uint64, tag byte) cciptypes.MerkleRootChain {
 	return cciptypes.MerkleRootChain{ChainSel: ch, OnRampAddress: []byte{byte(ch), 0xAA}, SeqNumsRange: cciptypes.NewSeqNumRange(cciptypes.SeqNum(s), cciptypes.SeqNum(e)), MerkleRoot: cciptypes.Bytes32{tag, byte(ch)}}
 }
@@ -144,8 +148,16 @@ func TestVerif_C10_commit(t *testing.T) {
 			ns := r.Range(2, 5)
 			perm := r.Perm(50)
 			w.fChain = map[cciptypes.ChainSelector]int{vC10Dest: r.Range(1, w.f), vC10Feed: r.Range(1, w.f)}
+			// half of the worlds use production-sized selectors (mainnet, BSC, Base, … and the extremes of uint64): chains
+			// whose selectors are more than 2^63 apart, or wrap around 2^64 in a cycle, order differently under a
+			// subtracting / truncating comparator (seeded change C10-11); their low bytes are pairwise distinct (vC10Root)
+			bigSels := r.Chance(1, 2)
+			bigPerm := r.Perm(len(vC10BigSels))
 			for k := 0; k < ns; k++ {
 				ch := cciptypes.ChainSelector(perm[k] + 1)
+				if bigSels {
+					ch = vC10BigSels[bigPerm[k]]
+				}
 				w.sources = append(w.sources, ch)
 				w.fChain[ch] = r.Range(1, w.f)
 			}
